@@ -52,6 +52,17 @@ def run(tier, seed, replay=None):
                 with open(path, "w", encoding="utf8", errors="surrogateescape") as f:
                     f.write(text)
                 items.append((lang, path, 1))
+            # inputs on which a look-ahead or a match is given up half-way (open parenthesis at the end of the text, a
+            # ternary inside a condition) next to inputs whose headers need that look-ahead: analysing the former first
+            # must not change the latter
+            seq_texts = ["f(", "const f = (", "x = g(a, (b", "function p(a): (", "function q() {\n  if (x ? k(a) : b) {\n    y = 1;\n  }\n}\n",
+                         "function v(a): number {\n  return a;\n}\n", "function w(): (x: number) => number {\n  return f;\n}\n",
+                         "void t(int a) throws (", "void u(int a) throws E {\n  x = 1;\n}\n", "def k(a, (b\n", "def m(a):\n    return a\n"]
+            for j, text in enumerate(seq_texts):
+                path = os.path.join(tmp, f"s{lang}{j}.{LC.EXT[lang]}")
+                with open(path, "w") as f:
+                    f.write(text)
+                items.append((lang, path, 1))
         seeds = [0, 1, 2, 3, 17, 123, 4242, 99999] if tier == "quick" else list(range(64))
         base = None
         base_hs = None
